@@ -832,6 +832,11 @@ def _module_literals(mod) -> Dict[str, ast.AST]:
         lit = v.operand if isinstance(v, ast.UnaryOp) and isinstance(v.op, (ast.USub, ast.UAdd)) else v
         if isinstance(lit, ast.Constant) and isinstance(lit.value, (int, float)) and not isinstance(lit.value, bool):
             out[t.id] = v
+
+        def simple(x):
+            return isinstance(x, ast.Constant) or (isinstance(x, ast.Attribute) and isinstance(x.value, ast.Name))
+        if isinstance(v, ast.Tuple) and 1 <= len(v.elts) <= 6 and all(simple(x) for x in v.elts):
+            out[t.id] = v      # a private record of literals / enum members (`_FALLBACK = (Kind.X, "module", "Class")`)
     _MODLIT[k] = out
     return out
 
